@@ -200,6 +200,7 @@ class _Launcher(object):
 
     def __init__(self):
         self.jobs = list()
+        self.psij_jobs = list()
 
     def can_launch(self, rcfg, pilots):
         return True
@@ -207,6 +208,24 @@ class _Launcher(object):
     def launch_pilots(self, rcfg, pilots):
         for pilot in pilots:
             self.jobs.append(pilot['jd_dict'])
+        # the job descriptions are turned into batch jobs by the real PSI/J
+        # launcher (up to, not including, submission) where it is in charge
+        if _psij is None:
+            return
+        lnch = PilotLauncherPSIJ.__new__(PilotLauncherPSIJ)
+        lnch._log, lnch._prof = _LOG, seams.null()
+        lnch._jobs, lnch._pilots = dict(), dict()
+        lnch._lock = seams.NoLock()
+        schema = lnch._get_schema(rcfg)
+        if not schema or schema not in _psij.JobExecutor.get_executor_names():
+            return
+        launcher = self
+
+        class Rec(object):
+            def submit(self_, job):
+                launcher.psij_jobs.append(job)
+        lnch._jex = {schema: Rec()}
+        lnch.launch_pilots(rcfg, pilots)
 
     def kill_pilots(self, pids):
         pass
@@ -853,6 +872,15 @@ def check_size(w, label, schema, raw, env_smt, size, record):
         fail('agent-cores', 'agent cores != job total_cpu_count')
     if a_gpus != j_gpus:
         fail('agent-gpus', 'agent gpus != job total_gpu_count')
+
+    # ... and the same node size: cores (hardware threads included) and GPUs
+    # per node, before the agent takes the blocked ones off
+    if ns['cpn'] and told.get('cores_per_node') != ns['cpn'] * ns['smt']:
+        fail('agent-cores-per-node', 'agent cores_per_node %s != %s x smt %s'
+             % (told.get('cores_per_node'), ns['cpn'], ns['smt']))
+    if ns['cpn'] and (told.get('gpus_per_node') or 0) != (ns['gpn'] or 0):
+        fail('agent-gpus-per-node', 'agent gpus_per_node %s != %s'
+             % (told.get('gpus_per_node'), ns['gpn']))
 
     # the in-memory agent config is the one that was written
     cfg = pilot['cfg']
